@@ -132,6 +132,8 @@ func ParsePPSNALUnit(data []byte, spsMap map[uint32]*SPS) (*PPS, error) {
 				} else {
 					nrScalingLists += 6
 				}
+			}
+			{ // The scaling lists are present also without transform_8x8_mode_flag (then only the six 4x4 lists)
 				pps.PicScalingLists = make([]ScalingList, nrScalingLists)
 
 				for i := 0; i < nrScalingLists; i++ {
